@@ -10,15 +10,21 @@ Family `engine-lines` (op `wrap_engine`): a `.bst` program with SEVERAL `newline
 buffers and several `write$` pieces per line; model side = the interpreter model (`Interp.run` on
 the program text) cross-checked with the buffer semantics `engineOutput` of `Model/Wrap.lean`;
 oracle on the physical lines (`_engine_clauses`).
+
+Extension (round 2, `props/c19_ext.py`): function-level ops `ws_positions` (the module's own `whitespace_re` on every code point),
+`pairwise` (`pybtex.utils.pairwise`), `rstrip`, `wrap_signature` (default arguments / pattern), `iter_trace` (the real closures
+`find_break` / `iter_lines` call by call, recorded with sys.setprofile) and `engine_calls` (`Interpreter.output` / `newline` called
+directly, any Unicode text).
 """
 import itertools
 import re
 
 import compat  # noqa: F401
 from props.base import corpus_for
+from props import c19_ext
 
 ID = 'C19'
-LEAN_MODULES = ['PybtexModel.Props.C19', 'PybtexModel.Props.EngineC19']
+LEAN_MODULES = ['PybtexModel.Props.C19', 'PybtexModel.Props.EngineC19', 'PybtexModel.Props.C19x']
 THEOREMS = {
     'C19_content': 'joining the (un-stripped) lines back reproduces the text: s = l0 ++ [c1] ++ drop |indent| l1 ++ ... with white-space c_i (plus at most one final white-space character when the indent is empty); nothing lost, duplicated or altered',
     'C19_content_exact': 'with a non-empty indent (BibTeX output: two blanks) the reconstruction is exact: s = l0 ++ [c1] ++ drop |indent| l1 ++ ...',
@@ -40,6 +46,15 @@ THEOREMS = {
     'C19_engine_newline': '[model wiring] (proof rfl) the .newline / .write cases of the interpreter model (Model/Interp.lean) ARE newlineStep / outputStep of Model/Wrap.lean: newline$ appends wrap(concatenation of the buffer, 79, "  ") + line feed and EMPTIES the buffer, write$ appends its operand. A statement between two model files; the run-level claim is C19_engine_run, the link to Interpreter.newline is the correspondence',
     'C19_engine_output': 'about the fold engineSteps of outputStep / newlineStep over groups of pieces (NOT Interp.run on a .bst program; that is C19_engine_run): the output is group by group the wrapped concatenation of the pieces + line feed; the concatenation of all writes is preserved up to white space; no word is split or merged, within a group or across a newline$',
     'C19_engine_run': 'EVERY finished run of the interpreter model (Interp.run, any .bst program, input, fuel): the returned .bbl text is engineOutput of the newline$ groups of the run\'s trace of write$ / newline$ calls, so C19_engine_output and group by group C19_default_lines apply to it; one group per newline$, groups = the written pieces in order (all of them when the last output call is newline$; later writes are never output)',
+    'C19_pairwise_spec': 'the helper pybtex.utils.pairwise (model: Wrap.pairwise) is zip_longest(l, l[1:]) for every list: each element paired with its successor, the last with None, nothing for the empty list',
+    'C19_ws_positions_spec': 'the break candidates [m.start() for m in whitespace_re.finditer(s)] (model wsPositions) are exactly the positions of s that hold one of the 29 white-space code points, in strictly increasing order (membership + strict order determine the list)',
+    'C19_wrap_refines_spec': 'refinement, both directions, every text / integer width / indent: a list of lines satisfies the specification IsWrapping (Spec/WrapPhys.lean: fits => one line; no white space behind the indent => one over-long line; else first line ends at THE FirstBreak position, that character is dropped, rest = wrapping of indent + remainder; no mention of find_break / pairwise / the loop) IF AND ONLY IF it is what iter_lines yields',
+    'C19_find_break_decision': 'decision logic of find_break, both directions, every text / integer width / indent: it returns p EXACTLY when p is white space strictly behind the indent, every later white space lies beyond the width, and p is within the width unless it is the first white space behind the indent (Spec FirstBreak); it returns None EXACTLY when there is no white space behind the indent',
+    'C19_defaults_from_source': 'wrapDefault (the call Interpreter.newline makes) is wrap at the default width / indent read from inspect.signature(wrap) on every run (Gen/WrapDefaults.lean), these are 79 and two blanks, and the model constants defaultWidth / defaultIndent equal the generated ones; finite fact by decide -- the module stops building when the source changes them',
+    'C19_calls_lines': '[model wiring + invariant] the lines of iter_lines are replayed from the sequence of find_break calls of the loop (iterCalls, compared call by call with the real closure by op iter_trace); every call has an argument longer than the width and returns find_break of it',
+    'C19_engine_calls': 'ANY sequence of Interpreter.output / Interpreter.newline calls (fold of emit) from ANY state (output_lines, output_buffer): the lines gain per newline wrap(concatenation of the pieces buffered since the previous one) + line feed, the buffer ends up holding exactly the pieces written after the last newline; from the fresh state the joined lines are engineOutput of the groups',
+    'C19_physical_lines': 'physical lines (split at line feed) of engineOutput, hypothesis: no piece contains a line feed: they are, group after group, the emitted lines of wrap(group text) -- one empty line for an empty buffer -- then the empty string behind the last line feed; every physical line ends in no white space, and one longer than 79 columns has no white space behind column 2; within a group every physical line after the first starts with two blanks or is empty',
+    'C19_engine_run_physical': 'the same for EVERY finished run of the interpreter model (Interp.run, any .bst program / input / fuel), hypothesis: no write$ group of the run\'s trace contains a line feed: physical lines of the returned .bbl text = emitted lines of the trace groups; no trailing white space; > 79 columns => no white space behind column 2; continuation lines of a group start with two blanks or are empty',
     'C19_engine_run_nonvacuous': 'a FUNCTION + EXECUTE program run through Interp.run (two pieces, an empty group, an 84-column group that is wrapped, a piece after the last newline$ that is lost): the .bbl text and the groups are as stated',
 }
 RULE = ('exhaustive: every word-length profile of <=N words (lengths 1..6, gaps of 1-2 blanks, 0-2 leading blanks, optional trailing blank) '
@@ -49,9 +64,13 @@ RULE = ('exhaustive: every word-length profile of <=N words (lengths 1..6, gaps 
         '(write$ + newline$); short profiles with gaps of 1-4 blanks / tab / blank+tab at widths 3..8; width 79 with blank / tab runs of '
         '75..85 and 150..165 and trailing blanks behind lines ending at columns 74..82; .bst programs with 1..6 newline$ calls, empty '
         'and blank buffers, 0..6 write$ pieces per line (every sequence of <=3 groups over 10 fixed groups + random programs, pieces with '
-        'braces, %, backslashes, >5000 characters); non-trivial = output has a line break (engine programs: >= 2 newline$); distinct by case JSON')
+        'braces, %, backslashes, >5000 characters); function level: whitespace_re on every code point, pairwise, rstrip, the signature defaults, '
+        'find_break / iter_lines of the real wrap call by call (short profiles x 5 width/indent pairs, boundary at 79, random texts), '
+        'Interpreter.output / newline called directly (every sequence of <= 4 calls over 4 fixed calls + random sequences with any Unicode text, '
+        'quotes, line feeds, pieces left in the buffer); non-trivial = output has a line break (engine programs / call sequences: >= 2 newline$); distinct by case JSON')
 TRUSTED = ['Python `\\s`, str.isspace and str.rstrip() agree on the 29 white-space code points of Model/Basic.lean (re-checked against the running interpreter on every run)']
-ASSUMPTIONS = ['width is an integer, the indent a string (what BibTeX output uses: 79 and two blanks); no lone surrogates in the text']
+ASSUMPTIONS = ['width is an integer, the indent a string (what BibTeX output uses: 79 and two blanks); no lone surrogates in the text',
+               'pieces sent through .bst programs (ops wrap / via engine, wrap_engine) hold no double quote, no line break and none of the code points str.splitlines() cuts at (bst.parse_string rewrites those); such texts reach Interpreter.output / newline through the op engine_calls instead']
 
 WS_CODES = [9, 10, 11, 12, 13, 28, 29, 30, 31, 32, 133, 160, 5760,
             8192, 8193, 8194, 8195, 8196, 8197, 8198, 8199, 8200, 8201, 8202,
@@ -90,7 +109,9 @@ EXECUTE {main}
 ENGINE_OK = frozenset('abcdefghijklmnopqrstuvwxyzABCDEFGHIJKLMNOPQRSTUVWXYZ0123456789.,;:- \t')
 # what a piece of an `engine-lines` case may contain: everything a .bst string literal can hold on one line
 # (no '"', no line break; braces and '%' are ordinary characters inside a string literal)
-ENGINE_LINES_OK = ENGINE_OK | frozenset("{}%\\~'()!?$&#_^@*+=<>/|[]`")
+ENGINE_LINES_OK = ENGINE_OK | frozenset("{}%\\~'()!?$&#_^@*+=<>/|[]`") | frozenset('éßж中𝔘\xa0\u3000\u2009\u205f')
+# (not in a .bst literal: the code points str.splitlines() cuts at -- VT, FF, FS, GS, RS, NEL, LS, PS: bst.parse_string, the vehicle of this
+# family, turns them into line feeds before the interpreter sees them; the op engine_calls hands them to Interpreter.output directly)
 
 
 def _engine(text, split):
@@ -123,6 +144,8 @@ def _engine_lines(groups):
 def impl(case):
     from pybtex.bibtex.utils import wrap
     try:
+        if case['op'] in c19_ext.OPS:
+            return c19_ext.impl(case)
         if case['op'] == 'wrap_engine':
             return _engine_lines(case['lines'])
         text, indent = case['text'], case['indent']
@@ -141,6 +164,8 @@ def impl(case):
 
 
 def to_request(case):
+    if case['op'] in c19_ext.OPS:
+        return c19_ext.to_request(case)
     if case['op'] == 'wrap_engine':
         return {'op': 'wrap_engine', 'bst': bst_of(case['lines']), 'lines': case['lines']}
     if case['op'] == 'wrap_widths':
@@ -149,6 +174,8 @@ def to_request(case):
 
 
 def model_out(case, reply):
+    if case['op'] in c19_ext.OPS:
+        return c19_ext.model_out(case, reply)
     out = reply.get('out')
     if case['op'] == 'wrap_engine' and isinstance(out, dict) and out.get('bbl') != reply['spec']['engine']:
         # the interpreter model (Model/Interp.lean) and the buffer semantics of Model/Wrap.lean (engineOutput) must agree
@@ -158,6 +185,8 @@ def model_out(case, reply):
 
 def valid_case(case):
     try:
+        if case['op'] in c19_ext.OPS:
+            return c19_ext.valid_case(case)
         if case['op'] == 'wrap_engine':
             g = case['lines']
             return (isinstance(g, list) and len(g) > 0 and
@@ -408,6 +437,8 @@ def _engine_clauses(groups, out):
 
 
 def oracle(case, impl_out, reply):
+    if case['op'] in c19_ext.OPS:
+        return c19_ext.oracle(case, impl_out, reply)
     spec = reply.get('spec')
     if case['op'] == 'wrap_engine':
         if not isinstance(impl_out, dict) or 'bbl' not in impl_out:
@@ -464,12 +495,15 @@ def _known_blank_line(case, impl_out, failure_text):
     if not failure_text.startswith('indent_blank:'):
         return False
     try:
-        if case['op'] == 'wrap_engine':
-            T = [''.join(g) for g in case['lines']]
+        if case['op'] in ('wrap_engine', 'engine_calls'):
+            groups = case['lines'] if case['op'] == 'wrap_engine' else c19_ext.groups_of(case['calls'])[0]
+            T = [''.join(g) for g in groups]
             return (impl_out.get('bbl') == ''.join(_ref_wrap(t, 79, '  ') + '\n' for t in T) and
                     any(_rstrip(l) == '' for t in T for l in _ref_lines(t, 79, '  ')[1:]))
         text, indent = case['text'], case['indent']
-        if case['op'] == 'wrap_widths':
+        if case['op'] == 'iter_trace':
+            width, out = case['width'], impl_out['wrap']
+        elif case['op'] == 'wrap_widths':
             m = _WIDTH_TAG.search(failure_text)
             width = int(m.group(1))
             out = impl_out[case['widths'].index(width)]
@@ -499,6 +533,8 @@ def _shape(text, width, out):
 
 
 def buckets(case, impl_out):
+    if case['op'] in c19_ext.OPS:
+        return c19_ext.buckets(case, impl_out)
     if case['op'] == 'wrap_engine':
         if not isinstance(impl_out, dict) or 'bbl' not in impl_out:
             return ['engine-lines:raised']
@@ -518,6 +554,8 @@ def buckets(case, impl_out):
 
 
 def nontrivial(case, impl_out):
+    if case['op'] in c19_ext.OPS:
+        return c19_ext.nontrivial(case, impl_out)
     if case['op'] == 'wrap_engine':
         return isinstance(impl_out, dict) and 'bbl' in impl_out and len(case['lines']) >= 2
     if case['op'] == 'wrap_widths':
@@ -647,7 +685,8 @@ def _sentence(rng, nwords, lens=(1, 2, 3, 4, 5, 6, 7, 8, 9, 10, 12, 15, 30, 76, 
     return [_word(rng.randint(0, 25), rng.choice(lens)) for _ in range(nwords)]
 
 
-ENGINE_SPECIALS = ['{', '}', '{}', '%', '~', '\\', "'", '(', ')', '\\em', '{\\em', '$x^2$', '&', '#1', 'a%b', '``q\'\'', '--', 'J.~R.']
+ENGINE_SPECIALS = ['{', '}', '{}', '%', '~', '\\', "'", '(', ')', '\\em', '{\\em', '$x^2$', '&', '#1', 'a%b', '``q\'\'', '--', 'J.~R.',
+                   'é', 'Straße', 'ж中', '𝔘', 'a\xa0b', 'c\u3000d', 'e\u205ff', 'o\u2009p', '\xa0', '\u3000']
 
 
 def _pieces(rng, text):
@@ -815,6 +854,8 @@ def gen_cases(tier, rng, info):
     nrand = 6000 if tier == 'quick' else 100000
     for _ in range(nrand):
         cases.append(_random_case(rng))
+    cases += c19_ext.gen_cases(tier, rng, info)
+    info['scope'] += '; ' + info.pop('ext_scope')
     return cases
 
 
@@ -830,7 +871,12 @@ LEVEL_TEXT = ('Machine-checked proof (Lean 4) about an executable model of wrap 
               'the code by a correspondence check that is exhaustive over small word-length profiles at widths 3..12 (gaps of 1-4 blanks and '
               'tabs in a second family), sweeps the boundary at 79 (incl. blank runs of 75..85 / 150..165 and trailing blanks), samples long '
               'random lines, and runs .bst programs with several newline$ calls, empty buffers and several write$ pieces per line through '
-              'the real Interpreter and through the interpreter model, with the property oracle on the physical lines.')
+              'the real Interpreter and through the interpreter model, with the property oracle on the physical lines.  Round 2: the helpers are '
+              'tied function by function (whitespace_re on every code point, pybtex.utils.pairwise, rstrip, the default arguments read from the '
+              'signature into Gen/WrapDefaults.lean: C19_defaults_from_source), find_break / iter_lines are compared call by call with the real closures, '
+              'Interpreter.output / newline are driven directly with arbitrary Unicode text; proved in addition: find_break returns p IFF p is the '
+              'specified first break (C19_find_break_decision), pairwise = zip_longest (C19_pairwise_spec), any sequence of output / newline calls from any '
+              'state (C19_engine_calls), and the PHYSICAL lines of the engine output / of every finished model run (C19_physical_lines, C19_engine_run_physical).')
 LEVEL_NOTE = ('Trusted: Lean kernel; axioms propext/Classical.choice/Quot.sound only; the hand-written model (Model/Wrap.lean) corresponds to '
               'pybtex/bibtex/utils.py only as far as the differential check explores; the regular expression (\\s), str.rstrip and the str.split() '
               'the oracle uses for "words" are modelled by the 29 white-space code points (table re-checked against the running Python on every '
@@ -842,4 +888,7 @@ LEVEL_NOTE = ('Trusted: Lean kernel; axioms propext/Classical.choice/Quot.sound 
               'lines) -- C19_indent_emitted_partial / _neg; the check reports it as KNOWN-FINDING only when the output is character for '
               'character what the unchanged function returns.  Texts that contain a line feed get the line-independent clauses only.  Engine layer: C19_engine_newline is '
               'definitional wiring between Model/Interp.lean and Model/Wrap.lean and C19_engine_output is about the fold engineSteps; the statement about runs is C19_engine_run '
-              '(over the C03 interpreter MODEL; that Interpreter.newline / output in Python are these steps is the correspondence: .bst programs through the real Interpreter).')
+              '(over the C03 interpreter MODEL; that Interpreter.newline / output in Python are these steps is the correspondence: .bst programs through the real Interpreter, '
+              'and the two methods called directly, op engine_calls).  C19_physical_lines / C19_engine_run_physical assume that no written piece contains a line feed '
+              '(otherwise physical and logical lines differ).  The op iter_trace observes the closures find_break / iter_lines of wrap through sys.setprofile; when a '
+              'refactoring removes them the op silently compares the returned string only (coverage/C19.md).')
